@@ -133,7 +133,9 @@ func (c *Net) CreateSession(name, nick string, at int) (*Sess, error) {
 func (s *Sess) Post(data string, pref int, patience time.Duration) *Post {
 	s.cmid++
 	p := &Post{cmid: s.cmid, data: data, snd: s.c.rec.Now(), ack: -1}
+	s.mu.Lock()
 	s.posts = append(s.posts, p)
+	s.mu.Unlock()
 	body, _ := json.Marshal(struct {
 		Data            string
 		ClientMessageId uint64
@@ -155,9 +157,11 @@ func (s *Sess) Post(data string, pref int, patience time.Duration) *Post {
 			resp.Body.Close()
 			cancel()
 			if resp.StatusCode == 200 {
+				s.mu.Lock()
 				p.ack = s.c.rec.Now()
 				p.status = 200
 				p.node = n
+				s.mu.Unlock()
 				return p
 			}
 			if resp.StatusCode == 404 {
@@ -180,6 +184,19 @@ func (s *Sess) Post(data string, pref int, patience time.Duration) *Post {
 	return p
 }
 
+// ackedSince counts the lines of the session that were sent after t and have been acknowledged.
+func (s *Sess) ackedSince(t int64) int {
+	s.mu.Lock()
+	defer s.mu.Unlock()
+	n := 0
+	for k := len(s.posts) - 1; k >= 0 && s.posts[k].snd > t; k-- {
+		if s.posts[k].ack >= 0 {
+			n++
+		}
+	}
+	return n
+}
+
 // Register: NICK, USER and (optionally) JOIN.
 func (s *Sess) Register(channel string) error {
 	lines := []string{"NICK " + s.nick, fmt.Sprintf("USER %s 0 * :%s", s.nick, s.name)}
@@ -187,7 +204,10 @@ func (s *Sess) Register(channel string) error {
 		lines = append(lines, "JOIN "+channel)
 	}
 	for _, l := range lines {
-		if p := s.Post(l, 0, 30*time.Second); p.status != 200 {
+		if p := s.Post(l, 0, 30*time.Second); p.status == 404 {
+			// recorded as an answer about this session (probe "post"); ExpiryTrace.tla judges it
+			return &Observed{fmt.Sprintf("session %s: %q answered 404 by node %d", s.name, l, p.node)}
+		} else if p.status != 200 {
 			return inconclusive("session %s: %q not acknowledged (status %d)", s.name, l, p.status)
 		}
 	}
